@@ -233,6 +233,7 @@ class FuncGen:
 
     in_comp = 0
     no_star = False
+    no_divmod = False
 
     def with_comp_var(self, var, kind, fn):
         old = self.scope.get(var)
@@ -354,7 +355,13 @@ class FuncGen:
             return 'sorted({%s for %s in range(%s)})' % (body, it, self.small(d))
         if c == 7 and not self.no_star:
             self.f('starred')
-            return '[*%s, %s, *%s]' % (self.expr('list', d), self.expr('int', d), self.expr('tuple', d))
+            # a starred divmod() of C-typed operands is a C tuple that the compiler unpacks into pointer garbage
+            # (recorded defect, DESIGN 12.5): never directly under a star
+            self.no_divmod = True
+            try:
+                return '[*%s, %s, *%s]' % (self.expr('list', d), self.expr('int', d), self.expr('tuple', d))
+            finally:
+                self.no_divmod = False
         if c == 8:
             self.f('dict_use')
             return r.choice(['list(%s)', 'list(%s.values())', 'sorted(%s.keys(), key=repr)']) % self.expr('dict', d)
@@ -370,7 +377,7 @@ class FuncGen:
             return 'tuple(%s)' % self.expr('list', d)
         if c == 1:
             return '(%s, %s)' % (self.expr('int', d), self.expr(r.choice(['int', 'str', 'float']), d))
-        if c == 2:
+        if c == 2 and not self.no_divmod:
             # never two constants: '*divmod(7, 2)' inside a display is compiled into garbage or rejected (C43/C36 finding
             # 'starred constant divmod'); keep one operand a variable/parameter when there is one
             v = self.pick_var('int') or 'len(GL)'
